@@ -149,13 +149,67 @@ def has_null(t):
     return exists(range(seq_len(attr_of(t, "_types"))), lambda i: at(attr_of(t, "_types"), i) is Null or isinstance(at(attr_of(t, "_types"), i), DOptional))
 
 
-@contract(MG + ".merge_field_sets", props=["C01", "C02", "C07"], verify=False)
-class MergeFieldSetsStub:
-    """(stub for callers: replaced by the verified contract below when available)"""
-    sorts = {"field_sets": "list", "result": "dict"}
+@spec
+def in_model(field_sets, i, k):
+    """key k is a field of the i-th field set"""
+    return k in as_dict(at(field_sets, i))
+
+
+@contract(MG + ".merge_field_sets", props=["C01", "C02", "C07"])
+class MergeFieldSets:
+    """C01: the merged model has exactly the keys of its members, and a key that some member lacks is Optional
+    (so a field without a default is present in every merged object)."""
+    sorts = {"field_sets": "list", "field_sets[]": "dict", "result": "dict", "fields": "dict", "first": "bool", "fields_diff": "set", "model": "dict"}
+    modifies = ["_type", "_types", "_hash", "_sorted", "_overflow", "_literals"]
+
+    def requires(self, field_sets):
+        return {"members_are_models": ty_is(field_sets, list) and forall(range(seq_len(field_sets)), lambda i: isinstance(at(field_sets, i), dict))}
 
     def ensures(self, field_sets, result):
-        return {"is_model": ty_is(result, dict)}
+        n = seq_len(field_sets)
+        return {
+            "is_model": ty_is(result, dict),
+            "no_key_lost@C01": forall(range(n), lambda i: forall(as_dict(at(field_sets, i)), lambda k: k in as_dict(result))),
+            "no_key_invented@C02": forall(as_dict(result), lambda k: exists(range(n), lambda i: in_model(field_sets, i, k))),
+            "missing_somewhere_makes_optional@C01": forall(as_dict(result), lambda k: implies(
+                exists(range(n), lambda i: not in_model(field_sets, i, k)), isinstance(as_dict(result)[k], DOptional))),
+        }
+
+
+@loop(MG + ".merge_field_sets", 1)
+def merge_outer(field_sets, fields, first, _it, _seq):
+    return {
+        "is_model": ty_is(fields, dict),
+        "first_flag": first == (_it == 0),
+        "no_key_lost": forall(range(_it), lambda i: forall(as_dict(_seq[i]), lambda k: k in as_dict(fields))),
+        "no_key_invented": forall(as_dict(fields), lambda k: exists(range(_it), lambda i: k in as_dict(_seq[i]))),
+        "missing_somewhere_makes_optional": forall(as_dict(fields), lambda k: implies(
+            exists(range(_it), lambda i: not (k in as_dict(_seq[i]))), isinstance(as_dict(fields)[k], DOptional))),
+    }
+
+
+@loop(MG + ".merge_field_sets", 2)
+def merge_inner(field_sets, fields, first, fields_diff, model, pre_fields, _it, _seq, _outer_it, _outer_seq):
+    return {
+        "is_model": ty_is(fields, dict),
+        "old_keys_kept": forall(as_dict(pre_fields), lambda k: k in as_dict(fields)),
+        "seen_keys_added": forall(range(_it), lambda j: _seq[j] in as_dict(fields)),
+        "nothing_else_added": forall(as_dict(fields), lambda k: k in as_dict(pre_fields) or exists(range(_it), lambda j: _seq[j] is k)),
+        "diff_is_old_keys_not_seen": forall(fields_diff, lambda k: k in as_dict(pre_fields) and not exists(range(_it), lambda j: _seq[j] is k))
+                                     and forall(as_dict(pre_fields), lambda k: k in fields_diff or exists(range(_it), lambda j: _seq[j] is k)),
+        "missing_earlier_makes_optional": forall(as_dict(fields), lambda k: implies(
+            exists(range(_outer_it), lambda i: not (k in as_dict(_outer_seq[i]))), isinstance(as_dict(fields)[k], DOptional))),
+    }
+
+
+@loop(MG + ".merge_field_sets", 3)
+def merge_missing(field_sets, fields, fields_diff, model, pre_fields, _it, _seq, _outer_it, _outer_seq):
+    return {
+        "is_model": ty_is(fields, dict),
+        "same_keys": forall(as_dict(pre_fields), lambda k: k in as_dict(fields)) and forall(as_dict(fields), lambda k: k in as_dict(pre_fields)),
+        "optional_kept": forall(as_dict(pre_fields), lambda k: implies(isinstance(as_dict(pre_fields)[k], DOptional), isinstance(as_dict(fields)[k], DOptional))),
+        "visited_are_optional": forall(range(_it), lambda j: isinstance(as_dict(fields)[_seq[j]], DOptional)),
+    }
 
 
 @contract(MG + "._optimize_union", props=["C08", "C01", "C02", "C07"])
@@ -195,6 +249,7 @@ def optimize_union_split(t, str_types, types_to_merge, list_types, dict_types, o
         "null_recorded_iff_seen": (Null in other_types) == exists(range(_it), lambda i: _seq[i] is Null or isinstance(_seq[i], DOptional)),
         "others_plain": all_plain(other_types),
         "strings_are_classes": forall(range(seq_len(as_list(str_types))), lambda k: is_class(at(as_list(str_types), k))),
+        "mergeables_are_models": forall(range(seq_len(types_to_merge)), lambda k: isinstance(at(types_to_merge, k), dict)),
     }
 
 
